@@ -102,10 +102,10 @@ Definition remainder (a b : num) : res num :=
   | Fix x, Big y | Big x, Fix y | Big x, Big y => if y =? 0 then Err ZeroDiv else Ok (Big (Z.rem x y))
   end.
 
-(* ibig_rem_floor: reduce modulo |n2| into [0,|n2|), then shift into the divisor's sign *)
+(* ibig_rem_floor: dashu's truncating %, then shifted into the divisor's sign *)
 Definition ibig_rem_floor (n1 n2 : Z) : Z :=
-  let r := n1 mod (Z.abs n2) in
-  if n2 <? 0 then (if r =? 0 then r else r + n2) else r.
+  let r := Z.rem n1 n2 in
+  if negb (r =? 0) && negb (Bool.eqb (r <? 0) (n2 <? 0)) then r + n2 else r.
 
 Definition modulus (a b : num) : res num :=
   match a, b with
